@@ -4,9 +4,9 @@ CONSTANTS NV = 4
           Areas = {"node","sc","rel","sv"}
           AltSp = TRUE
           MaxView = 2
-          MaxHeight = 2
+          MaxHeight = 1
           MaxId = 1
-          MaxSigns = 4
+          MaxSigns = 3
           NWho = 1
           Rich = FALSE
           EmitOn = TRUE
